@@ -462,8 +462,13 @@ def kani_driver_run(h, cap, prop='', mem_gb=None):
     tests = []
     for m in PB_BLOCK.finditer(outp):
         code = m.group(2)
-        chk = re.search(r'/// Check for `(\w+)`: "(.*)"', code)
+        chk = re.search(r'/// Check for `(\w+)`: "(.*?)"\s*$', code, re.M | re.S)
         fn = re.search(r'fn (kani_concrete_playback_\w+)\(', code)
+        # the doc comment kani prints in front of the test repeats the checked condition verbatim; a condition
+        # written over several source lines leaves its continuation lines outside the comment - keep only the test
+        k = code.find('#[test]')
+        if k > 0:
+            code = code[k:]
         vals = re.findall(r'^\s*// (.*)$', code, re.M)
         tests.append(dict(harness=m.group(1), kind=chk.group(1) if chk else '?', check=chk.group(2) if chk else '?',
                           test=fn.group(1) if fn else '?', values=vals, code=code))
@@ -644,6 +649,8 @@ def run_property(prop, tier, seed, only=None, list_only=False, jobs=10, write_ev
                 r['status'] = 'noreplay'
                 r['detail'] = 'counterexample did not reproduce natively: %s' % outcomes
                 r['native_log'] = tail
+                if 'missing' in outcomes.values():
+                    log('[%s] native playback output (tests missing):\n%s' % (prop, tail[-2500:]))
                 continue
             rp = os.path.join(replay_dir, '%s-%s.json' % (prop, r['name']))
             json.dump(dict(property=prop, harness=r['name'], full=r['full'], group=g, file=r['file'],
